@@ -358,6 +358,10 @@ def array_cands(t, other_keys: typing.List[str]) -> typing.Tuple[list, list]:
             opt.append(cbuf("bytearray", ascii_text(n, True).encode()))
             if string_like(t):
                 must.append(cs(ascii_text(n, True)))
+        # buffers whose len() is not their byte count (wider items, two dimensions): not a documented form -- whatever happens,
+        # the array that ends up stored must respect the capacity / the fixed length
+        wide = bytes((i * 7 + 1) % 50 for i in range(2 * cap))
+        opt += [dict(cbuf("memoryview", wide), fmt="H"), dict(cbuf("memoryview", wide), shape=[2, cap]), dict(cbuf("memoryview", wide + wide), fmt="I")]
         if string_like(t):
             for k in sorted({cap // 2, cap // 2 + 1, 1}):
                 opt.append(cs("é" * k))  # 2 bytes each
@@ -580,7 +584,7 @@ def classify_array(t, c) -> dict:
     elif k == "objarr" and isinstance(e, pydsdl.CompositeType):
         if all(x["c"] == "obj" and x.get("tk") == tkey(e) and x.get("v") is not None for x in c["v"]):
             vals = [x["v"] for x in c["v"]]
-    elif k in ("bytes", "bytearray", "memoryview") and u8like(e):
+    elif k in ("bytes", "bytearray", "memoryview") and u8like(e) and not c.get("fmt") and not c.get("shape"):
         vals = list(bytes.fromhex(c["h"]))
         if any(v > irange(e)[1] for v in vals):
             vals, beyond = None, True
@@ -804,7 +808,7 @@ def cand_py(c, limit: int = 140) -> str:
         s = f"np.{c['dt']}({c['v']!r})"
     elif k in ("bytes", "bytearray", "memoryview"):
         b = bytes.fromhex(c["h"])
-        s = repr(b) if k == "bytes" else f"{k}({b!r})"
+        s = repr(b) if k == "bytes" else f"{k}({b!r})" + (f".cast({c['fmt']!r})" if c.get("fmt") else "") + (f".cast('B', {c['shape']})" if c.get("shape") else "")
     elif k in ("list", "tuple"):
         inner_ = ", ".join(cand_py(e, 40) for e in c["v"][:12]) + (", ..." if len(c["v"]) > 12 else "")
         s = f"[{inner_}]" if k == "list" else f"({inner_},)"
